@@ -7,13 +7,13 @@ L1 = ("TLC-generated grammars and inputs are run through the real peg and the pa
       "observations and accepts a record only if it equals what the TLA+ requirement (PegSem/TokenConsumers) derives. ")
 
 CLAIMED = {
-    "C01": dict(text=L1 + "Decides verdict and consumed prefix for default options, every reachable rule as entry. Also: literals and classes spelled with every escape style (family lex), ranges written the wrong way round, and Parse called twice on one instance without Reset (a failed parse leaves nothing behind, a successful one is continued), judged against PegSem.",
+    "C01": dict(text=L1 + "Decides verdict and consumed prefix for default options, every reachable rule as entry. Also: literals and classes spelled with every escape style (family lex), ranges written the wrong way round, and Parse called twice on one instance without Reset (a failed parse leaves nothing behind, a successful one is continued), judged against PegSem. L0 also covers the test behind unguarded rule calls: AlwaysSucceeds.tla transcribes CheckAlwaysSucceeds, TLC checks that every accepted rule succeeds at every offset (two unsound variants refuted), and the call sites read from the emitted source are compared with the transcription (drift reported in the evidence).",
                 tech="TLA+ denotational PEG semantics (PegSem!Eval) as oracle; TLC-enumerated grammars x inputs; conformance of recorded API observations judged by TLC", ref="5 C01"),
     "C03": dict(text=L1 + "Decides the exact token sequence (rule, begin, end in runes) of every accepted input, incl. multi-byte and multi-line inputs.",
                 tech="TLA+ PegSem!Eval token semantics as oracle; recorded Tokens() judged by TLC", ref="5 C03"),
     "C04": dict(text=L1 + "Decides the Execute() action trace (which actions, order, text/begin/end of the last completed capture). Also after a second Parse without Reset: Execute runs the actions of the derivation that succeeded, and only those.",
                 tech="TLA+ TokenConsumers!ExecWithText over PegSem!Eval; recorded probe log judged by TLC", ref="5 C04"),
-    "C05": dict(text=L1 + "Decides the AST() shape (pre-order depth/rule/span) and the printed syntax tree against the declarative derivation tree.",
+    "C05": dict(text=L1 + "Decides the AST() shape (pre-order depth/rule/span) and the printed syntax tree against the declarative derivation tree; for a pinned byte-class grammar also under uint8 (memo on and off) with inputs whose byte length exceeds the index type while runes and tokens fit.",
                 tech="TLA+ TokenConsumers!DerivTree/PrintLines; recorded AST walk and printer output judged by TLC", ref="5 C05"),
     "C02": dict(text="L0: Optimizer.tla transcribes the -switch rewrite (first sets, consumes, intersection threshold, ordered/unordered split, default case) and the emitted dispatch semantics (one case, no fall-through, skipped first test); TLC checks on the switch family that the rewritten grammar gives PegSem!Eval's verdict, end and tokens, and refutes the variants with the pinned tree's rules (nullable alternatives, skip propagation, single analysing pass over the rule cache); the cache passes are transcribed as the code runs them and shown to compute the idealised rewrite. PegVM with dispatch nodes is model-checked on the rewritten bodies against Eval of the original ones, and the hook events of -switch and -inline -switch parsers are validated against it (L2). " + L1 + "Decides that the parsers generated with -inline, -switch and both give the same verdict, consumed prefix and token sequence as the default parser, on a family built around choices of >= 3 consuming alternatives (the shape -switch rewrites) and on the general family.",
                 tech="TLA+ Optimizer model checked against PegSem!Eval; TLC-judged equality of observations across the four option sets over TLC-generated grammars (switch-shaped and random families)", ref="5 C02"),
@@ -23,7 +23,7 @@ CLAIMED = {
                 tech="TLA+ PegSem!ErrTok and TokenConsumers!ErrorFields as oracle; recorded parse error judged by TLC", ref="5 C11"),
     "C12": dict(text=L1 + "Decides that every step of TLC-generated histories on one long-lived instance (Buffer; Reset; Parse; Execute; AST) equals the fresh-instance observation of that input, across Size {unset,1,4096}, U {uint16,uint32,uint64,uint}, and for default, -inline -switch and -noast parsers. Includes a pinned line-oriented grammar whose inputs fail on later lines (line/column positions of one input after another on the same instance).",
                 tech="TLC-generated reuse histories replayed on the real parsers; TLC-judged equality with fresh-instance observations", ref="5 C12"),
-    "C13": dict(text=L1 + "Decides no panic / verdict in {nil, parse error} / token offsets index []rune(Buffer) for byte-level inputs (NUL, invalid UTF-8, surrogates, non-BMP, U+10FFFF) with full PegSem!Eval equality on the rune sequence Go derives.",
+    "C13": dict(text=L1 + "Decides no panic / verdict in {nil, parse error} / token offsets index []rune(Buffer) for byte-level inputs (NUL, invalid UTF-8, surrogates, non-BMP, U+10FFFF) with full PegSem!Eval equality on the rune sequence Go derives (a wrong verdict or token on a byte input is a C13 violation: the parser did not work on []rune(Buffer)); scenario 1 is a pinned grammar whose tokens tell ASCII / Latin-1 / U+FFFD / astral runes apart.",
                 tech="TLA+ PegSem!Eval over the rune view of TLC-generated byte strings; recorded panics/tokens judged by TLC", ref="5 C13"),
     "C08": dict(cat="exploration", text="TLC enumerates the scenario space (TLC-generated grammar families x the eight option sets, plus spec-rendered stress shapes: 300/1000/3000 rules, user imports plain/aliased/grouped/duplicating the runtime's, header comments, control/quote/non-ASCII characters up to U+10FFFF in literals and classes, predicates and actions containing comments and braces, 140 rules with actions, an unused rule in the middle, text without capture); the real peg generates, and the Go toolchain's verdicts (exit status, compiles, gofmt-idempotent, silent) are recorded and judged by TLC as plain booleans. 'Is valid gofmt-clean Go' is an external atomic predicate, so this is exploration, not model checking.",
                 tech="TLA+-enumerated scenario space (GenCorpus families + stress shapes rendered by the spec); go build / go/format as external atomic predicates; TLC judges the recorded booleans", ref="5 C08 and 6",
